@@ -29,10 +29,11 @@ type CheckDef struct {
 	ExpectLabels []string
 	// EngineOnly labels are discipline violations observed only inside the
 	// engine; Confirm translates them into a native observation.
-	Confirm   func(c *candidate, repo, harness string) (bool, string)
-	Race      bool
-	Technique string
-	Notes     string
+	Confirm    func(c *candidate, repo, harness string) (bool, string)
+	Race       bool
+	Technique  string
+	SolverDiff bool // thorough tier: replay logged queries on z3-new and cvc5 and compare
+	Notes      string
 	// Post runs after exploration for checks with extra obligations
 	// (e.g. induction lemmas); it returns extra evidence and problems.
 	Post func(run *checkRun)
@@ -123,15 +124,15 @@ func (k *knownFinding) matches(prop string, c *candidate) bool {
 }
 
 type checkRun struct {
-	def      *CheckDef
-	tier     string
-	seed     int64
-	prog     *engine.Program
-	jobs     []*engine.Job
-	results  []*engine.JobResult
-	stats    *engine.Stats
-	extra    map[string]interface{}
-	problems []string // inconclusive reasons
+	def        *CheckDef
+	tier       string
+	seed       int64
+	prog       *engine.Program
+	jobs       []*engine.Job
+	results    []*engine.JobResult
+	stats      *engine.Stats
+	extra      map[string]interface{}
+	problems   []string // inconclusive reasons
 	staticViol []string // violations found by static obligations (reported as VIOLATION)
 }
 
@@ -187,11 +188,25 @@ func runCheck(def *CheckDef, flags map[string]string) int {
 		}
 	}
 	logDir := flags["smtlog"]
+	crossDir := ""
+	if logDir == "" && def.SolverDiff && (tier == "thorough" || flags["crosscheck"] != "") {
+		crossDir, _ = os.MkdirTemp("", "verif-smtlog-")
+		logDir = crossDir
+		defer os.RemoveAll(crossDir)
+	}
 	res, stats, err := engine.RunJobs(p, run.jobs, nworkers(), backend, true, logDir)
 	if err != nil {
 		return fail(3, "engine: "+err.Error())
 	}
 	run.results, run.stats = res, stats
+	if crossDir != "" {
+		total, disagree, unknown := crossCheckLogs(crossDir, 6)
+		run.extra["solver_crosscheck"] = map[string]interface{}{"scripts_compared": 6, "answers_compared": total, "disagreements": disagree, "unknown_or_error": unknown,
+			"solvers": "z3 4.8.12 vs z3-new 5.1.0 vs cvc5 1.0"}
+		if disagree > 0 {
+			run.problems = append(run.problems, fmt.Sprintf("%d solver disagreements in the cross-check", disagree))
+		}
+	}
 	if def.Post != nil {
 		def.Post(run)
 	}
@@ -420,19 +435,19 @@ func runCheck(def *CheckDef, flags map[string]string) int {
 			"sat": stats.Sat, "unsat": stats.Unsat, "unknown": stats.Unknown},
 		"byte_domain": map[string]interface{}{"decisions": stats.DomainDecisions, "rechecked_by_solver": stats.DomainRechecks, "disagreements": stats.DomainDisagreements,
 			"recheck_rate": engine.RecheckRate},
-		"solver":                backend,
-		"solver_s":              stats.SolverTime.Seconds(),
-		"engine_steps":          stats.Steps,
-		"candidates":            len(cands),
-		"candidates_replayed":   len(toReplay),
-		"confirmed":             confirmed,
-		"unconfirmed":           unconfirmed,
-		"known_findings_hit":    knownHit,
-		"new_violations":        len(newViol),
-		"witness_mismatches":    wmism,
-		"technique":             def.Technique,
-		"exhaustive":            false,
-		"inconclusive_reasons":  run.problems,
+		"solver":               backend,
+		"solver_s":             stats.SolverTime.Seconds(),
+		"engine_steps":         stats.Steps,
+		"candidates":           len(cands),
+		"candidates_replayed":  len(toReplay),
+		"confirmed":            confirmed,
+		"unconfirmed":          unconfirmed,
+		"known_findings_hit":   knownHit,
+		"new_violations":       len(newViol),
+		"witness_mismatches":   wmism,
+		"technique":            def.Technique,
+		"exhaustive":           false,
+		"inconclusive_reasons": run.problems,
 	}
 	for k, v := range run.extra {
 		cov[k] = v
